@@ -432,9 +432,8 @@ static size_t safec_ftoa(out_fct_type out, const char *funcname, char *buffer,
     if ((value > PRINTF_MAX_FLOAT) || (value < -PRINTF_MAX_FLOAT)) {
 #ifdef PRINTF_SUPPORT_EXPONENTIAL
 #ifdef PRINTF_SUPPORT_LONG_DOUBLE
-        // TODO Is %le good?
         return safec_etoa_long(out, funcname, buffer, idx, maxlen,
-                               (long double)value, prec, width, flags, "%le");
+                               (long double)value, prec, width, flags, "%Le");
 #else
         return safec_etoa(out, funcname, buffer, idx, maxlen, value, prec,
                           width, flags);
